@@ -128,11 +128,85 @@ func runC02(r *harness.Run) {
 	gens["K600/F-call"] = mapGen(gens["F-call"], "K600/", constPressure(600))
 	order = append(order, "K300/F-call", "K600/F-call")
 	pr.runGens(gens, order)
+	// select/unpack/multi-results are the operations that move many values at once: the same family
+	// under registries that reallocate while they run (one slot at a time, steps of 7 and 32; the
+	// runner cuts the registry back to its initial capacity before every program), alone and below
+	// 3-6 padding frames so that the moving operation itself is the one that crosses the capacity
+	for _, cfg := range []struct {
+		name string
+		opts lua.Options
+	}{
+		{"grow1-from128", lua.Options{RegistrySize: 128, RegistryMaxSize: 1 << 20, RegistryGrowStep: 1}},
+		{"grow7-from130", lua.Options{RegistrySize: 130, RegistryMaxSize: 1 << 20, RegistryGrowStep: 7}},
+		{"grow32-from128", lua.Options{RegistrySize: 128, RegistryMaxSize: 8192, RegistryGrowStep: 32}},
+	} {
+		pg := &progRunner{r: r, prop: "C02", opts: cfg.opts, sigPrefix: cfg.name + "/"}
+		gg := map[string]Gen{"F-select": genSelectUnpack(th), "F-unpackgrow": genUnpackGrow()}
+		og := []string{"F-select", "F-unpackgrow"}
+		for _, d := range []int{3, 4, 5, 6} {
+			pre := fmt.Sprintf("D%d/", d)
+			gg[pre+"F-select"] = mapGen(gg["F-select"], pre, deepFrame(d))
+			og = append(og, pre+"F-select")
+		}
+		pg.runGens(gg, og)
+	}
 	c02LongTail(r)
 	runPinned(r, "C02")
 	// the values of a resume arrive as the results of the pending yield also when the HOST resumes
 	// (LState.Resume with 0/1/3 values against call sites that expect 0, 1, 3 or all results)
 	c06GoAPI(r, c06Bodies())
+}
+
+// genUnpackGrow: unpack(t, i, j) of lists of 1..300 elements (array part, hash part, both) with the
+// window inside, straddling and outside the list, as the first operation that needs that many
+// registers, then once more; the values themselves are observed (first, last, a middle one, sum).
+func genUnpackGrow() Gen {
+	return func(yield func(*Prog)) {
+		for _, n := range []int{1, 2, 20, 60, 127, 128, 129, 200, 300} {
+			for _, rep := range []string{"array", "hash", "mixed"} {
+				for _, win := range []string{"all", "inner", "from0", "beyond", "tail"} {
+					n, rep, win := n, rep, win
+					yield(&Prog{Family: "F-unpackgrow", Shape: fmt.Sprintf("n=%d/%s/%s", n, rep, win), Mk: func() *Block {
+						var fillT Stat
+						switch rep {
+						case "array":
+							fillT = NumFor("i", Num(1), Num(float64(n)), nil, Assign1(Index(Name("t"), Name("i")), Bin("*", Name("i"), Num(3))))
+						case "hash":
+							fillT = NumFor("i", Num(float64(n)), Num(1), Num(-1), Assign1(Index(Name("t"), Name("i")), Bin("*", Name("i"), Num(3))))
+						default:
+							fillT = Do(NumFor("i", Num(1), Num(float64(n/2)), nil, Assign1(Index(Name("t"), Name("i")), Bin("*", Name("i"), Num(3)))),
+								NumFor("i", Num(float64(n)), Num(float64(n/2+1)), Num(-1), Assign1(Index(Name("t"), Name("i")), Bin("*", Name("i"), Num(3)))))
+						}
+						var args []Expr
+						switch win {
+						case "all":
+							args = []Expr{Name("t")}
+						case "inner":
+							args = []Expr{Name("t"), Num(float64(n/3 + 1)), Num(float64(n - n/4))}
+						case "from0":
+							args = []Expr{Name("t"), Num(0), Num(float64(n))}
+						case "beyond":
+							args = []Expr{Name("t"), Num(1), Num(float64(n + 5))}
+						case "tail":
+							args = []Expr{Name("t"), Num(float64(n))}
+						}
+						look := LocalFunc("look", Func(nil, true,
+							Local1("c", CallN("select", Str("#"), Vararg())),
+							Local(names("s", "holes"), Num(0), Num(0)),
+							NumFor("i", Num(1), Name("c"), nil,
+								Local1("v", Paren(CallN("select", Name("i"), Vararg()))),
+								IfElse(Bin("==", Name("v"), Nil()), []Stat{Assign1(Name("holes"), Bin("+", Name("holes"), Num(1)))}, []Stat{Assign1(Name("s"), Bin("+", Name("s"), Name("v")))})),
+							Return(Name("c"), Name("s"), Name("holes"), Paren(Vararg()))))
+						return Blk(Local1("t", TableE()), fillT, look,
+							Emit(Str("first"), Call(Name("look"), Call(Name("unpack"), args...))),
+							Emit(Str("again"), Call(Name("look"), Call(Name("unpack"), args...))),
+							Local1("u", TableE(Pos1(Call(Name("unpack"), args...)))),
+							Emit(Str("ctor"), Un("#", Name("u")), Index(Name("u"), Num(1)), Index(Name("u"), Num(float64(n/2+1)))))
+					}})
+				}
+			}
+		}
+	}
 }
 
 // ---- F-call ----------------------------------------------------------------------------------------
